@@ -308,6 +308,8 @@ std::string resizeLeft(const std::string& s, std::size_t newSize, char fill)
 std::vector<std::string> split(const std::string& s, std::size_t n)
 {
   using diff_type = typename std::iterator_traits<decltype(s.begin())>::difference_type;
+  if (n == 0)
+    throw Exception("TextTools::split(). The size of the parts must be at least 1.");
   std::vector<std::string> v;
   auto nbChunks = IntegerTools::divideUp(s.size(), n);
   v.reserve(nbChunks);
